@@ -305,6 +305,15 @@ GROUPS['real'] = [
 ]
 
 
+# ---- scalar multiples without real multiplication: products of scalars stay abstract (rmul) so that e-matching proofs never
+# see a nonlinear term; the link rmul(x, y) = x * y is used only in separate quantifier-free obligations
+GROUPS['smulr'] = [
+    A([x_, a_, b_], mm(smul(x_, a_), b_) == smul(x_, mm(a_, b_)), [mm(smul(x_, a_), b_)]),
+    A([x_, a_, b_], mm(a_, smul(x_, b_)) == smul(x_, mm(a_, b_)), [mm(a_, smul(x_, b_))]),
+    A([a_], smul(1, a_) == a_, [smul(1, a_)]),
+    A([x_, y_, a_], smul(x_, smul(y_, a_)) == smul(rmul(x_, y_), a_), [smul(x_, smul(y_, a_))]),
+]
+
 # ---- scalar-product chain of two tensors (mul_scalar): recursive definition with a two-variable pattern (no matching loop)
 Y2_ = z3.Const('Y2_', TT)
 GROUPS['schain'] = [
